@@ -71,4 +71,30 @@ example : (ConfigTables.versionTable.flatten.any (·.2.isSome)) = true ∧
           (ConfigTables.versionTable.flatten.any (·.2.isNone)) = true ∧
           ConfigTables.consistencyTable.flatten.length > 5000 := by decide +kernel
 
+/-- **start_only_if_consistent** — for every configuration (whatever mixture of flags, environment
+and file produced it): `Run` lets start-up proceed only if every name was a known one, a backend
+was given, the heartbeat interval is below the idle timeout, there is at least one connection per
+host, both versions are known names with version ≤ max version, peers come with an rpc-address for
+this proxy, and no peer is missing its address or (when this proxy has tokens) its tokens. -/
+theorem start_only_if_consistent (c : Config.Cfg) (h : Config.validate c = none) :
+    c.namesOk = true ∧ c.hasBackend = true ∧ c.heartbeat < c.idleTimeout ∧ 1 ≤ c.numConns ∧
+    ∃ v m, c.version = some v ∧ c.maxVersion = some m ∧ v ≤ m ∧
+      ¬(c.rpcAddr = "" ∧ c.peers ≠ []) ∧ Config.firstPeerProblem c.rpcAddr (c.tokens ≠ []) c.peers 1 = none := by
+  unfold Config.validate at h
+  by_cases h1 : c.namesOk = true <;> simp [h1] at h
+  by_cases h2 : c.hasBackend = true <;> simp [h2] at h
+  by_cases h3 : c.heartbeat ≥ c.idleTimeout <;> simp [h3] at h
+  by_cases h4 : c.numConns < 1 <;> simp [h4] at h
+  cases hv : c.version with
+  | none => simp [hv] at h
+  | some v =>
+    cases hm : c.maxVersion with
+    | none => simp [hv, hm] at h
+    | some m =>
+      simp only [hv, hm] at h
+      by_cases h5 : v > m <;> simp [h5] at h
+      by_cases h6 : c.rpcAddr = "" ∧ c.peers ≠ [] <;> simp [h6] at h
+      refine ⟨h1, h2, by omega, by omega, v, m, rfl, rfl, by omega, h6, ?_⟩
+      simpa using h
+
 end CqlVerif.C20
